@@ -69,6 +69,22 @@ def run(pid, tier, seed):
         if not okp:
             build_broken = atext[-3000:]
 
+    # 1b. source-regenerated obligations (models / summaries regenerated from /repo on every run)
+    ob_fail = []
+    extra_ob = getattr(mod, "obligations", None)
+    if extra_ob is not None and build_broken is None:
+        try:
+            obs = extra_ob()
+        except Exception:
+            obs = [("regenerated-obligations", False, traceback.format_exc()[-1500:])]
+        coverage["regenerated_obligations"] = [{"name": n, "ok": ok, "detail": d[:300]} for n, ok, d in obs]
+        for n, ok, d in obs:
+            coverage["obligations"] += 1
+            if ok:
+                coverage["discharged"] += 1
+            else:
+                ob_fail.append((n, d))
+
     # 2. correspondence
     try:
         cases = mod.generate(tier, seed)
@@ -159,6 +175,32 @@ def run(pid, tier, seed):
             report_violation(pid, {"kind": "correspondence-broken", "correspondence": "model %s vs implementation" % mod.IMPORTS,
                                    "n_disagreements": len(dis), "first_disagreeing_input": c.inp,
                                    "impl_output": c.out, "repro": c.repro, "coq_term": c.term[:4000], "stream": c.kind},
+                             "no-failing-input-found")
+    if ob_fail and not violations:
+        # a regenerated proof obligation broke and the correspondence run showed nothing: search harder
+        found = None
+        search = getattr(mod, "search", None)
+        if search is not None:
+            try:
+                more = search([], tier, seed)
+                if more:
+                    core.eval_cases(pid + "_search", more, mod.IMPORTS, shard=getattr(mod, "SHARD", 300),
+                                    prelude=getattr(mod, "PRELUDE", ""))
+                    coverage["search_evaluations"] = len(more)
+                    for c in more:
+                        if c.verdict in ("violation", "both") and not (fkey(c) in known):
+                            found = c
+                            break
+            except Exception:
+                coverage["search_error"] = traceback.format_exc()[-1500:]
+        violations += 1
+        if found is not None:
+            report_violation(pid, {"kind": "property-violated-by-implementation (found by search after a broken regenerated obligation)",
+                                   "input": found.inp, "impl_output": found.out, "repro": found.repro,
+                                   "coq_term": found.term[:4000], "broken_obligations": [n for n, _ in ob_fail]})
+        else:
+            report_violation(pid, {"kind": "regenerated-proof-obligation-broken", "theorem": ob_fail[0][0],
+                                   "all_broken": [n for n, _ in ob_fail], "detail": ob_fail[0][1][-1500:]},
                              "no-failing-input-found")
     if err or not okc:
         violations += 1
